@@ -40,6 +40,12 @@ impl C16 {
 		cfg.allow_cancel_after_post = run.rng.chance(1, 2);
 		cfg.w_cancel = run.rng.below(4) as u32;
 		cfg.w_scan = 0;
+		// swarm: some runs spread funds over several accounts of one seed
+		if run.rng.chance(1, 3) {
+			cfg.extra_accounts = 2 + run.rng.below(2) as usize;
+			cfg.w_account += 8;
+			cfg.w_mine += 6;
+		}
 		for f in cfg.fund_blocks.iter_mut() {
 			*f += run.rng.below(5) as u32;
 		}
@@ -99,15 +105,6 @@ impl C16 {
 					if t.height < start_h {
 						continue;
 					}
-					if !rec.is_empty()
-						&& rec.iter().all(|o| o.status == OutputStatus::Unconfirmed)
-						&& Some(&t.acct) != active.as_ref()
-					{
-						// a not yet refreshed output of a non-active account: scan refreshes
-						// the active account only; not one of the listed divergences
-						run.cov.not_judged("unconfirmed_onchain_output_of_non_active_account");
-						continue;
-					}
 					let st: Vec<String> = rec.iter().map(|o| format!("{}", o.status)).collect();
 					v.push(run.viol(
 						"restores_truth",
@@ -124,7 +121,13 @@ impl C16 {
 					let bad = o.value != t.value
 						|| o.is_coinbase != t.is_coinbase
 						|| o.root_key_id != t.acct
-						|| (o.mmr_index.is_some() && (o.height != t.height || o.lock_height != lock));
+						|| (o.mmr_index.is_some()
+							&& (o.height != t.height
+								// maturity: exact for a coinbase; a plain output is spendable once
+								// confirmed, so its recorded lock height only must not exceed its
+								// height (it keeps the first height after being mined again)
+								|| (t.is_coinbase && o.lock_height != lock)
+								|| (!t.is_coinbase && o.lock_height > lock)));
 					if bad {
 						v.push(run.viol(
 							"restores_truth",
@@ -227,6 +230,25 @@ impl C16 {
 					));
 					return v;
 				}
+			}
+		}
+		// restored wallet: every account that holds an unspent output exists again
+		if restored && start.is_none() {
+			let have: BTreeSet<String> = snap.accts.iter().map(|a| a.path.to_hex()).collect();
+			let want: BTreeSet<String> = truth.iter().map(|t| t.acct.to_hex()).collect();
+			if want.len() > 2 {
+				run.cov.probe("restore_of_three_or_more_funded_accounts");
+			}
+			if let Some(missing) = want.iter().find(|a| !have.contains(*a)) {
+				v.push(run.viol(
+					"restores_truth",
+					"account_missing_after_restore",
+					format!(
+						"wallet {}: the chain holds unspent outputs of account path {} but the restored wallet has no such account (accounts: {:?})",
+						w, missing, have
+					),
+				));
+				return v;
 			}
 		}
 		// restored wallet: same spendable total as the chain's truth implies
@@ -365,9 +387,22 @@ impl Prop for C16 {
 					let new_w = nw;
 					let start = if run.rng.chance(3, 4) { None } else { Some(run.rng.range(0, run.ex.world.chain.height())) };
 					let del = run.rng.chance(1, 3);
-					self.queue.push(Step::new(Op::Scan { w: new_w, start, del }));
-					self.queue.push(Step::new(Op::Scan { w: new_w, start, del }));
-					return Some(Step::new(Op::Restore { src: w }));
+					let mut seq = vec![];
+					// sometimes every account of the seed gets an output of its own first
+					let labels = self.gen.labels.get(w).cloned().unwrap_or_default();
+					if labels.len() >= 2 && run.rng.chance(1, 2) && run.ex.world.is_open(w) {
+						for l in &labels {
+							seq.push(Step::new(Op::SetAccount { w, label: l.clone() }));
+							seq.push(Step::new(Op::Mine { w: Some(w), n: 1, txs: false }));
+						}
+						seq.push(Step::new(Op::Mine { w: None, n: run.rng.range(1, 4) as u32, txs: true }));
+					}
+					seq.push(Step::new(Op::Restore { src: w }));
+					seq.push(Step::new(Op::Scan { w: new_w, start, del }));
+					seq.push(Step::new(Op::Scan { w: new_w, start, del }));
+					seq.reverse();
+					self.queue = seq;
+					return self.queue.pop();
 				}
 				// (b) stored-state divergence, scan, (c) scan again
 				let del = run.rng.chance(1, 2);
